@@ -204,4 +204,374 @@ theorem np_planDrop (fields urns : List String) : NoPanic (planDrop fields urns)
   simp only [this, if_false]
   np
 
+/-! ### decoding what the serialiser wrote -/
+
+@[simp] theorem member_nil (k : String) : member [] k = .null := rfl
+
+@[simp] theorem member_cons (k k' : String) (v : Json) (rest : Obj) :
+    member ((k, v) :: rest) k' = if k' == k then v else member rest k' := by
+  simp only [member, List.lookup]
+  split <;> simp_all
+
+@[simp] theorem optKV_true (k : String) (v : Json) : optKV true k v = [(k, v)] := rfl
+@[simp] theorem optKV_false (k : String) (v : Json) : optKV false k v = [] := rfl
+
+theorem mapList_asStr (l : List String) : mapList asStrElem (l.map Json.str) = .ok l := by
+  induction l with
+  | nil => rfl
+  | cons a t ih =>
+    simp only [List.map, mapList, ih]
+    simp [asStrElem, asStr]
+
+theorem asStrList_ser (l : List String) : asStrList (serStrs l) = .ok l := by
+  simp [asStrList, serStrs, mapList_asStr]
+
+/-- the `omitempty` test of a string member -/
+theorem strPresent (u : String) : (u != "") = if u = "" then false else true := by
+  by_cases h : u = "" <;> simp [h]
+
+/-- the `omitempty` test of a map / slice member -/
+theorem listPresent {α : Type} (l : List α) : (!l.isEmpty) = if l = [] then false else true := by
+  cases l <;> simp
+
+theorem rt_addMeta (m : AddMeta) : parseAddMeta (serAddMeta m) = .ok m := by
+  obtain ⟨uri, unit, custom⟩ := m
+  by_cases hc : custom = [] <;> by_cases hu : unit = "" <;>
+    simp [parseAddMeta, serAddMeta, asStruct, asMeta, asStr, strPresent, listPresent, hc, hu]
+
+/-- `NewFieldMetaWithCustomData` accepts the metadata. -/
+def ValidFieldMeta (m : FieldMeta) : Prop := m.uri ≠ "" ∧ m.dataType ∈ dataTypes
+
+theorem rt_fieldMeta (m : FieldMeta) (h : ValidFieldMeta m) : parseFieldMeta (serFieldMeta m) = .ok m := by
+  obtain ⟨uri, dt, req, unit, custom⟩ := m
+  obtain ⟨h1, h2⟩ := h
+  simp only at h1 h2
+  by_cases hc : custom = [] <;> by_cases hu : unit = "" <;>
+    simp [parseFieldMeta, serFieldMeta, asStruct, asMeta, asStr, asBool, strPresent, listPresent, hc, hu, h1, h2]
+
+/-- What `ParseAlignmentPeriod` accepts. -/
+def ValidPeriod (zoneOk : String → Bool) : Period → Prop
+  | .custom ms zone => zoneOk zone = true ∧ 0 < ms ∧ ms ≤ 9223372036854
+  | .calendar kind zone => zoneOk zone = true ∧ kind ∈ calendarKinds
+
+theorem parseCustomPeriod_ok (zoneOk : String → Bool) (ms : Int) (zone : String)
+    (hz : zoneOk zone = true) (h0 : 0 < ms) (h1 : ms ≤ 9223372036854) :
+    parseCustomPeriod zoneOk ms zone = .ok (.custom ms zone) := by
+  rcases parseCustomPeriod_spec zoneOk ms zone with h | ⟨h, _⟩
+  · exfalso
+    unfold parseCustomPeriod at h
+    rw [maxInt64_div] at h
+    have hw : wrap64 ms = ms := by unfold wrap64; omega
+    have hw2 : wrap64 (ms * nsPerMs) = ms * nsPerMs := by simp only [wrap64, nsPerMs]; omega
+    have hpos : 0 < ms * nsPerMs := by simp only [nsPerMs]; omega
+    rw [hw, hw2, newFixed_pos hpos] at h
+    simp [hz, show ¬ ms ≤ 0 by omega, show ¬ ms > 9223372036854 by omega] at h
+  · exact h
+
+theorem rt_period (zoneOk : String → Bool) (p : Period) (h : ValidPeriod zoneOk p) :
+    parsePeriod zoneOk (serPeriod p) = .ok p := by
+  cases p with
+  | custom ms zone =>
+    obtain ⟨hz, h0, h1⟩ := h
+    have hr : minInt64 ≤ ms ∧ ms ≤ maxInt64 := by simp only [minInt64, maxInt64]; omega
+    simp [parsePeriod, serPeriod, discriminator, asStr, asInt64, hr, parseCustomPeriod_ok zoneOk ms zone hz h0 h1]
+  | calendar kind zone =>
+    obtain ⟨hz, hk⟩ := h
+    simp only [parsePeriod, serPeriod, discriminator, asStr, member_cons, member_nil]
+    simp only [calendarKinds, List.mem_cons, List.not_mem_nil, or_false] at hk
+    rcases hk with rfl | rfl | rfl | rfl | rfl | rfl | rfl | rfl <;>
+      simp [parseCalendarPeriod, hz, newFixed_pos, calendarKinds]
+
+/-- What `parseAlignerFilter` accepts. -/
+def ValidAligner (zoneOk : String → Bool) (a : Aligner) : Prop :=
+  ValidPeriod zoneOk a.period ∧ ∀ m, a.fillMode = some m → m ∈ fillModes
+
+theorem rt_aligner (zoneOk : String → Bool) (ty : String) (a : Aligner) (h : ValidAligner zoneOk a) :
+    parseAligner zoneOk (serAlignerKV ty a) = .ok a := by
+  obtain ⟨p, fm⟩ := a
+  obtain ⟨hp, hf⟩ := h
+  cases fm with
+  | none => simp [parseAligner, serAlignerKV, asOptStr, asStr, rt_period zoneOk p hp]
+  | some m =>
+    have hm : m ∈ fillModes := hf m rfl
+    simp [parseAligner, serAlignerKV, asOptStr, asStr, rt_period zoneOk p hp, hm]
+
+/-! ### field values -/
+
+def qDepth : QField → Nat
+  | .constant .. => 1
+  | .condition _ a b => max (qDepth a) (qDepth b) + 1
+  | .logical _ a b => max (qDepth a) (qDepth b) + 1
+  | .ref => 1
+  | .selector s t f => max (qDepth s) (max (qDepth t) (qDepth f)) + 1
+  | .nvl s a => max (qDepth s) (qDepth a) + 1
+  | .cast s _ => qDepth s + 1
+  | .numeric _ a b => max (qDepth a) (qDepth b) + 1
+  | .unary _ a => qDepth a + 1
+  | .nil .. => 1
+
+def rDepth : RField → Nat
+  | .constant .. => 1
+  | .condition _ a b => max (rDepth a) (rDepth b) + 1
+  | .logical _ a b => max (rDepth a) (rDepth b) + 1
+  | .ref _ => 1
+  | .selector s t f => max (rDepth s) (max (rDepth t) (rDepth f)) + 1
+  | .nvl s a => max (rDepth s) (rDepth a) + 1
+  | .cast s _ => rDepth s + 1
+  | .numeric _ a b => max (rDepth a) (rDepth b) + 1
+  | .unary _ a => rDepth a + 1
+  | .reduce .. => 1
+  | .nil .. => 1
+
+theorem rt_qfield : ∀ (f : QField) (n : Nat), qDepth f ≤ n → parseQField n (serQField f) = .ok f := by
+  intro f
+  induction f with
+  | constant dt v r u =>
+    intro n h; cases n with
+    | zero => simp [qDepth] at h
+    | succ n => by_cases hu : u = "" <;> simp [parseQField, serQField, discriminator, asStr, asBool, strPresent, hu]
+  | condition op a b iha ihb =>
+    intro n h; cases n with
+    | zero => simp [qDepth] at h
+    | succ n =>
+      simp only [qDepth] at h
+      simp [parseQField, serQField, discriminator, asStr, iha n (by omega), ihb n (by omega)]
+  | logical op a b iha ihb =>
+    intro n h; cases n with
+    | zero => simp [qDepth] at h
+    | succ n =>
+      simp only [qDepth] at h
+      simp [parseQField, serQField, discriminator, asStr, iha n (by omega), ihb n (by omega)]
+  | ref =>
+    intro n h; cases n with
+    | zero => simp [qDepth] at h
+    | succ n => simp [parseQField, serQField, discriminator, asStr]
+  | selector s t f ihs iht ihf =>
+    intro n h; cases n with
+    | zero => simp [qDepth] at h
+    | succ n =>
+      simp only [qDepth] at h
+      simp [parseQField, serQField, discriminator, asStr, ihs n (by omega), iht n (by omega), ihf n (by omega)]
+  | nvl s a ihs iha =>
+    intro n h; cases n with
+    | zero => simp [qDepth] at h
+    | succ n =>
+      simp only [qDepth] at h
+      simp [parseQField, serQField, discriminator, asStr, ihs n (by omega), iha n (by omega)]
+  | cast s tt ihs =>
+    intro n h; cases n with
+    | zero => simp [qDepth] at h
+    | succ n =>
+      simp only [qDepth] at h
+      simp [parseQField, serQField, discriminator, asStr, ihs n (by omega)]
+  | numeric op a b iha ihb =>
+    intro n h; cases n with
+    | zero => simp [qDepth] at h
+    | succ n =>
+      simp only [qDepth] at h
+      simp [parseQField, serQField, discriminator, asStr, iha n (by omega), ihb n (by omega)]
+  | unary op a iha =>
+    intro n h; cases n with
+    | zero => simp [qDepth] at h
+    | succ n =>
+      simp only [qDepth] at h
+      simp [parseQField, serQField, discriminator, asStr, iha n (by omega)]
+  | nil dt u =>
+    intro n h; cases n with
+    | zero => simp [qDepth] at h
+    | succ n => by_cases hu : u = "" <;> simp [parseQField, serQField, discriminator, asStr, strPresent, hu]
+
+theorem rt_rfield : ∀ (f : RField) (n : Nat), rDepth f ≤ n → parseRField n (serRField f) = .ok f := by
+  intro f
+  induction f with
+  | constant dt v r u =>
+    intro n h; cases n with
+    | zero => simp [rDepth] at h
+    | succ n => by_cases hu : u = "" <;> simp [parseRField, serRField, discriminator, asStr, asBool, strPresent, hu]
+  | condition op a b iha ihb =>
+    intro n h; cases n with
+    | zero => simp [rDepth] at h
+    | succ n =>
+      simp only [rDepth] at h
+      simp [parseRField, serRField, discriminator, asStr, iha n (by omega), ihb n (by omega)]
+  | logical op a b iha ihb =>
+    intro n h; cases n with
+    | zero => simp [rDepth] at h
+    | succ n =>
+      simp only [rDepth] at h
+      simp [parseRField, serRField, discriminator, asStr, iha n (by omega), ihb n (by omega)]
+  | ref urn =>
+    intro n h; cases n with
+    | zero => simp [rDepth] at h
+    | succ n => simp [parseRField, serRField, discriminator, asStr]
+  | selector s t f ihs iht ihf =>
+    intro n h; cases n with
+    | zero => simp [rDepth] at h
+    | succ n =>
+      simp only [rDepth] at h
+      simp [parseRField, serRField, discriminator, asStr, ihs n (by omega), iht n (by omega), ihf n (by omega)]
+  | nvl s a ihs iha =>
+    intro n h; cases n with
+    | zero => simp [rDepth] at h
+    | succ n =>
+      simp only [rDepth] at h
+      simp [parseRField, serRField, discriminator, asStr, ihs n (by omega), iha n (by omega)]
+  | cast s tt ihs =>
+    intro n h; cases n with
+    | zero => simp [rDepth] at h
+    | succ n =>
+      simp only [rDepth] at h
+      simp [parseRField, serRField, discriminator, asStr, ihs n (by omega)]
+  | numeric op a b iha ihb =>
+    intro n h; cases n with
+    | zero => simp [rDepth] at h
+    | succ n =>
+      simp only [rDepth] at h
+      simp [parseRField, serRField, discriminator, asStr, iha n (by omega), ihb n (by omega)]
+  | unary op a iha =>
+    intro n h; cases n with
+    | zero => simp [rDepth] at h
+    | succ n =>
+      simp only [rDepth] at h
+      simp [parseRField, serRField, discriminator, asStr, iha n (by omega)]
+  | reduce us rt =>
+    intro n h; cases n with
+    | zero => simp [rDepth] at h
+    | succ n =>
+      by_cases hu : us = []
+      · simp [parseRField, serRField, discriminator, asStr, asStrList, listPresent, hu]
+      · simp [parseRField, serRField, discriminator, asStr, asStrList_ser, listPresent, hu]
+  | nil dt u =>
+    intro n h; cases n with
+    | zero => simp [rDepth] at h
+    | succ n => by_cases hu : u = "" <;> simp [parseRField, serRField, discriminator, asStr, strPresent, hu]
+
+/-! ### filters -/
+
+/-- a decimal literal in the form `json.Marshal` omits/writes it: zero is `0` -/
+def ValidDec (d : Dec) : Prop := d.m = 0 → d.e = 0
+
+def ValidFilter (zoneOk : String → Bool) : Filter → Prop
+  | .aligner a => ValidAligner zoneOk a
+  | .condition _ => True
+  | .fieldValue _ _ => True
+  | .overrideMeta _ _ _ => True
+  | .delta nn mx => counterRuleOk nn mx = true ∧ ValidDec mx
+  | .rate _ ps nn mx => counterRuleOk nn mx = true ∧ ValidDec mx ∧ ∀ p, ps = some p → minInt64 ≤ p ∧ p ≤ maxInt64
+
+def fDepth : Filter → Nat
+  | .condition f => qDepth f
+  | .fieldValue f _ => qDepth f
+  | _ => 0
+
+def ValidRFilter (zoneOk : String → Bool) : RFilter → Prop
+  | .aligner a => ValidAligner zoneOk a
+  | .dropFields us => us ≠ []
+  | .projection us => us ≠ []
+  | _ => True
+
+def rfDepth : RFilter → Nat
+  | .condition f => rDepth f
+  | .appendField f _ => rDepth f
+  | .singleField f _ => rDepth f
+  | _ => 0
+
+theorem decPresent (m : Int) : (m != 0) = if m = 0 then false else true := by
+  by_cases h : m = 0 <;> simp [h]
+
+set_option maxHeartbeats 1600000 in
+theorem rt_filter_rate (zoneOk : String → Bool) (n : Nat) (u : String) (ps : Option Int) (nn : Bool) (mx : Dec)
+    (hv : ValidFilter zoneOk (.rate u ps nn mx)) :
+    parseFilter zoneOk n (serFilter (.rate u ps nn mx)) = .ok (.rate u ps nn mx) := by
+  obtain ⟨hr, hdv, hps⟩ := hv
+  obtain ⟨m, e⟩ := mx
+  by_cases hm : m = 0
+  · have he : e = 0 := hdv hm
+    subst hm; subst he
+    cases ps with
+    | none =>
+      by_cases hu : u = "" <;> cases nn <;>
+        simp [serFilter, parseFilter, discriminator, asStr, asDec, asBool, asOptInt, hr, strPresent, hu]
+    | some p =>
+      have hp := hps p rfl
+      by_cases hu : u = "" <;> cases nn <;>
+        simp [serFilter, parseFilter, discriminator, asStr, asDec, asBool, asOptInt, hr, strPresent, hu, hp]
+  · cases ps with
+    | none =>
+      by_cases hu : u = "" <;> cases nn <;>
+        simp [serFilter, parseFilter, discriminator, asStr, asDec, asBool, asOptInt, serDec, decPresent,
+          hr, strPresent, hu, hm]
+    | some p =>
+      have hp := hps p rfl
+      by_cases hu : u = "" <;> cases nn <;>
+        simp [serFilter, parseFilter, discriminator, asStr, asDec, asBool, asOptInt, serDec, decPresent,
+          hr, strPresent, hu, hm, hp]
+
+theorem rt_filter (zoneOk : String → Bool) (f : Filter) (n : Nat) (hv : ValidFilter zoneOk f)
+    (hd : fDepth f ≤ n) : parseFilter zoneOk n (serFilter f) = .ok f := by
+  cases f with
+  | aligner a =>
+    simp only [serFilter, parseFilter, discriminator]
+    have ht : member (serAlignerKV "aligner" a) "type" = .str "aligner" := by
+      obtain ⟨p, fm⟩ := a
+      cases fm <;> simp [serAlignerKV]
+    simp [ht, asStr, rt_aligner zoneOk "aligner" a hv]
+  | condition q =>
+    simp [serFilter, parseFilter, discriminator, asStr, rt_qfield q n hd]
+  | fieldValue q m =>
+    simp [serFilter, parseFilter, discriminator, asStr, rt_qfield q n hd, rt_addMeta]
+  | overrideMeta urn unit c =>
+    by_cases h1 : urn = "" <;> by_cases h2 : unit = "" <;> by_cases h3 : c = [] <;>
+      simp [serFilter, parseFilter, discriminator, asStr, asMeta, strPresent, listPresent, h1, h2, h3]
+  | delta nn mx =>
+    obtain ⟨hr, hdv⟩ := hv
+    obtain ⟨m, e⟩ := mx
+    by_cases hm : m = 0
+    · have he : e = 0 := hdv hm
+      subst hm; subst he
+      cases nn <;> simp [serFilter, parseFilter, discriminator, asStr, asDec, asBool, hr]
+    · cases nn <;>
+        simp [serFilter, parseFilter, discriminator, asStr, asDec, asBool, serDec, decPresent, hm, hr]
+  | rate u ps nn mx => exact rt_filter_rate zoneOk n u ps nn mx hv
+
+theorem rt_rfilter (zoneOk : String → Bool) (f : RFilter) (n : Nat) (hv : ValidRFilter zoneOk f)
+    (hd : rfDepth f ≤ n) : parseRFilter zoneOk n (serRFilter f) = .ok f := by
+  cases f with
+  | aligner a =>
+    simp only [serRFilter, parseRFilter, discriminator]
+    have ht : member (serAlignerKV "aligner" a) "type" = .str "aligner" := by
+      obtain ⟨p, fm⟩ := a
+      cases fm <;> simp [serAlignerKV]
+    simp [ht, asStr, rt_aligner zoneOk "aligner" a hv]
+  | condition q =>
+    simp [serRFilter, parseRFilter, discriminator, asStr, rt_rfield q n hd]
+  | appendField q m =>
+    simp [serRFilter, parseRFilter, discriminator, asStr, rt_rfield q n hd, rt_addMeta]
+  | dropFields us =>
+    have : us ≠ [] := hv
+    simp [serRFilter, parseRFilter, discriminator, asStr, asStrList_ser, this]
+  | singleField q m =>
+    simp [serRFilter, parseRFilter, discriminator, asStr, rt_rfield q n hd, rt_addMeta]
+  | projection us =>
+    have : us ≠ [] := hv
+    simp [serRFilter, parseRFilter, discriminator, asStr, asStrList_ser, this]
+
+theorem rt_filters (zoneOk : String → Bool) (n : Nat) : ∀ (fs : List Filter),
+    (∀ f ∈ fs, ValidFilter zoneOk f ∧ fDepth f ≤ n) →
+    mapList (parseFilter zoneOk n) (fs.map serFilter) = .ok fs
+  | [], _ => rfl
+  | f :: t, h => by
+    have h1 := h f List.mem_cons_self
+    have h2 := rt_filters zoneOk n t (fun g hg => h g (List.mem_cons_of_mem _ hg))
+    simp [mapList, rt_filter zoneOk f n h1.1 h1.2, h2]
+
+theorem rt_rfilters (zoneOk : String → Bool) (n : Nat) : ∀ (fs : List RFilter),
+    (∀ f ∈ fs, ValidRFilter zoneOk f ∧ rfDepth f ≤ n) →
+    mapList (parseRFilter zoneOk n) (fs.map serRFilter) = .ok fs
+  | [], _ => rfl
+  | f :: t, h => by
+    have h1 := h f List.mem_cons_self
+    have h2 := rt_rfilters zoneOk n t (fun g hg => h g (List.mem_cons_of_mem _ hg))
+    simp [mapList, rt_rfilter zoneOk f n h1.1 h1.2, h2]
+
 end ShpanVerif.Proofs.Parser
